@@ -68,6 +68,9 @@ func main() {
 	for i, n := 0, r.Pick(2, 12); i < n; i++ {
 		run(r, caseID{"visibility-big", r.Seed*4_000_003 + int64(i)})
 	}
+	for i, n := 0, r.Pick(4, 30); i < n; i++ {
+		run(r, caseID{"visibility-predicate", r.Seed*5_000_003 + int64(i)})
+	}
 	for i, n := 0, r.Pick(1, 8); i < n; i++ {
 		run(r, caseID{"engine", r.Seed*3_000_003 + int64(i)})
 	}
@@ -77,6 +80,7 @@ func main() {
 	r.FloorCount("reader_views", int64(r.Pick(2000, 20000)))
 	r.FloorCount("reader_views_overlapping_apply", int64(r.Pick(200, 2000)))
 	r.FloorCount("big_txn_reader_views_overlapping_apply", int64(r.Pick(50, 300)))
+	r.FloorCount("predicate_reader_views_overlapping_apply", int64(r.Pick(500, 4000)))
 	r.FloorCount("engine_txns", int64(r.Pick(100, 1000)))
 	r.Finish()
 }
@@ -89,6 +93,8 @@ func run(r *ev.Run, id caseID) {
 		runVisibility(r, id)
 	case "visibility-big":
 		runVisibilityBig(r, id)
+	case "visibility-predicate":
+		runVisibilityPredicate(r, id)
 	case "engine":
 		runEngine(r, id)
 	}
@@ -596,6 +602,128 @@ func runVisibilityBig(r *ev.Run, id caseID) {
 	r.Eval(1)
 	r.Nontrivial(fmt.Sprint("visibility-big", id.Seed))
 	r.Sample(map[string]any{"kind": "visibility-big", "commands": head(cmds, 4)})
+}
+
+// runVisibilityPredicate: the predicates and the executed branch of ONE read-only transaction see
+// one state. The key "state" is flipped between two values by a tight apply loop; readers run
+// read-only transactions of every shape (0-2 operations per branch, the predicate on "state"
+// before / after / between slow range predicates over static keys) whose response tells which
+// value each of its reads saw.
+func runVisibilityPredicate(r *ev.Run, id caseID) {
+	g := gen.New(id.Seed)
+	t, err := fsmx.Fresh("t", fsm.RecoveryTypeSnapshot)
+	if err != nil {
+		r.Violation("fsm-open", err.Error(), id)
+		return
+	}
+	defer t.Close()
+	var idx uint64
+	var entries []sm.Entry
+	nStatic := 200 + g.R.Intn(1500)
+	for i := 0; i < nStatic; i++ {
+		idx++
+		entries = append(entries, fsmx.Entry(idx, &pb.Command{Table: []byte("t"), Type: pb.Command_PUT, Kv: &pb.KeyValue{Key: []byte(fmt.Sprintf("cfg/%05d", i)), Value: []byte("x")}}))
+	}
+	idx++
+	entries = append(entries, fsmx.Entry(idx, &pb.Command{Table: []byte("t"), Type: pb.Command_PUT, Kv: &pb.KeyValue{Key: []byte("state"), Value: []byte("a")}}))
+	if _, err := t.Update(entries); err != nil {
+		r.Violation("update-error", err.Error(), id)
+		return
+	}
+	var (
+		stop     atomic.Bool
+		wg       sync.WaitGroup
+		bad      atomic.Value
+		applying atomic.Bool
+		overlap  atomic.Int64
+	)
+	stateIs := func(v string) *pb.Compare {
+		return &pb.Compare{Key: []byte("state"), Result: pb.Compare_EQUAL, Target: pb.Compare_VALUE, TargetUnion: &pb.Compare_Value{Value: []byte(v)}}
+	}
+	slow := func() *pb.Compare {
+		return &pb.Compare{Key: []byte("cfg/"), RangeEnd: []byte("cfg0"), Result: pb.Compare_EQUAL, Target: pb.Compare_VALUE, TargetUnion: &pb.Compare_Value{Value: []byte("x")}}
+	}
+	readState := func() *pb.RequestOp {
+		return &pb.RequestOp{Request: &pb.RequestOp_RequestRange{RequestRange: &pb.RequestOp_Range{Key: []byte("state")}}}
+	}
+	for rd := 0; rd < 3; rd++ {
+		wg.Add(1)
+		go func(rd int) {
+			defer wg.Done()
+			rg := gen.New(id.Seed*31 + int64(rd))
+			for n := 0; !stop.Load(); n++ {
+				during := applying.Load()
+				req := &pb.TxnRequest{}
+				shape := rg.R.Intn(4)
+				switch shape {
+				case 0:
+					req.Compare = []*pb.Compare{stateIs("a"), slow()}
+				case 1:
+					req.Compare = []*pb.Compare{slow(), stateIs("a")}
+				case 2:
+					req.Compare = []*pb.Compare{stateIs("a"), slow(), stateIs("a")}
+				default:
+					req.Compare = []*pb.Compare{stateIs("a")}
+				}
+				ns, nf := 1+rg.R.Intn(2), 1+rg.R.Intn(2)
+				for i := 0; i < ns; i++ {
+					req.Success = append(req.Success, readState())
+				}
+				for i := 0; i < nf; i++ {
+					req.Failure = append(req.Failure, readState())
+				}
+				resp, err := t.Txn(req)
+				if err != nil {
+					bad.Store("reader txn error: " + err.Error())
+					return
+				}
+				r.Count("predicate_reader_views", 1)
+				if during && applying.Load() {
+					overlap.Add(1)
+				}
+				for i, ro := range resp.Responses {
+					kv := ro.GetResponseRange().GetKvs()
+					if len(kv) != 1 {
+						bad.Store(fmt.Sprintf("read %d of the executed branch returned %d pairs for the key \"state\", which always exists", i, len(kv)))
+						return
+					}
+					if got := string(kv[0].Value); (got == "a") != resp.Succeeded {
+						bad.Store(fmt.Sprintf("read-only transaction {if %d predicates incl. value(state)==\"a\" then %d x range(state) else %d x range(state)}: succeeded=%v, yet read %d of its executed branch returned state=%q", len(req.Compare), ns, nf, resp.Succeeded, i, got))
+						return
+					}
+				}
+			}
+		}(rd)
+	}
+	for b, nb := 0, 4000; b < nb && bad.Load() == nil; b++ {
+		idx++
+		v := "a"
+		if b%2 == 0 {
+			v = "b"
+		}
+		e := []sm.Entry{fsmx.Entry(idx, &pb.Command{Table: []byte("t"), Type: pb.Command_PUT, Kv: &pb.KeyValue{Key: []byte("state"), Value: []byte(v)}})}
+		applying.Store(true)
+		_, err := t.Update(e)
+		if b%64 == 63 {
+			applying.Store(false)
+			time.Sleep(200 * time.Microsecond)
+		}
+		if err != nil {
+			bad.Store("update error: " + err.Error())
+			break
+		}
+	}
+	applying.Store(false)
+	stop.Store(true)
+	wg.Wait()
+	r.Count("predicate_reader_views_overlapping_apply", overlap.Load())
+	if v := bad.Load(); v != nil {
+		r.Violation("readonly-transaction-reads-several-states", v.(string), witness{Case: id, Commands: []string{fmt.Sprintf("%d static pairs cfg/<n>=x, then 4000 apply calls flipping state between a and b", nStatic)}})
+		return
+	}
+	r.Eval(1)
+	r.Nontrivial(fmt.Sprint("visibility-predicate", id.Seed))
+	r.Sample(map[string]any{"kind": "visibility-predicate", "static_pairs": nStatic, "apply_calls": 4000})
 }
 
 func padded(tag []byte, size int) []byte {
